@@ -1,7 +1,8 @@
 import GN.Process.Env
 
 /-! Line protocol for C20.
-`C20 <nenv> e… <nrt> <nops> (<rt> S <k> <v> | <rt> D <k>)… => (R <n> (k v)…)^nrt H <m> e…`  (hex, sorted) -/
+`C20 <nenv> e… <nrt> <nops> (<rt> S <k> <v> | <rt> D <k> | H S <k> <v> | H D <k> | N)… => (R <n> (k v)…)^runtimes H <m> e…`
+(hex, sorted; `H` = the host changes its own environment, `N` = a further runtime is created now) -/
 
 namespace GN.Driver.C20
 open GN GN.Process
@@ -22,19 +23,31 @@ def takeHex : List String → Nat → Option (List Bytes × List String)
     pure (b :: xs, rest)
   | [], _ + 1 => none
 
-def takeOps : List String → Nat → Option (List (Nat × Op) × List String)
+def takeOps : List String → Nat → Option (List WOp × List String)
   | rest, 0 => some ([], rest)
+  | "N" :: rest, n + 1 => do
+    let (xs, rest) ← takeOps rest n
+    pure (.newRuntime :: xs, rest)
+  | "H" :: "S" :: k :: v :: rest, n + 1 => do
+    let k ← parseHexBytes k
+    let v ← parseHexBytes v
+    let (xs, rest) ← takeOps rest n
+    pure (.hostSet k v :: xs, rest)
+  | "H" :: "D" :: k :: rest, n + 1 => do
+    let k ← parseHexBytes k
+    let (xs, rest) ← takeOps rest n
+    pure (.hostDel k :: xs, rest)
   | rt :: "S" :: k :: v :: rest, n + 1 => do
     let rt ← rt.toNat?
     let k ← parseHexBytes k
     let v ← parseHexBytes v
     let (xs, rest) ← takeOps rest n
-    pure ((rt, .set k v) :: xs, rest)
+    pure (.js rt (.set k v) :: xs, rest)
   | rt :: "D" :: k :: rest, n + 1 => do
     let rt ← rt.toNat?
     let k ← parseHexBytes k
     let (xs, rest) ← takeOps rest n
-    pure ((rt, .del k) :: xs, rest)
+    pure (.js rt (.del k) :: xs, rest)
   | _, _ => none
 
 def fmtWorld (rts : List EnvMap) (host : List Bytes) : String :=
@@ -66,10 +79,22 @@ def handle (toks : List String) : String :=
           match takeOps rest nops with
           | some (ops, "=>" :: impl) =>
             let impl := " ".intercalate impl
-            let w := (World.init env nrt).run ops
+            let w := (World.init env nrt).runW ops
             let model := fmtWorld w.rts w.host
-            let spec := fmtWorld ((List.range nrt).map fun j =>
-              specRuntime env (ops.filterMap fun (i, op) => if i == j then some op else none)) env
+            -- specification, computed differently: for every runtime the host environment *at the moment it was
+            -- created* (the host's own changes replayed as a name -> value table), then its own operations
+            let hostAt (k : Nat) : List Bytes := (ops.take k).foldl (fun h o => match o with
+              | .hostSet a b => hostSet h a b
+              | .hostDel a => hostDel h a
+              | _ => h) env
+            let created : List Nat := (List.replicate nrt 0) ++
+              ((List.range ops.length).filter fun k => match ops.getD k .newRuntime with
+                | .newRuntime => true
+                | _ => false)
+            let spec := fmtWorld ((List.range created.length).map fun j =>
+              specRuntime (hostAt (created.getD j 0)) (ops.filterMap fun o => match o with
+                | .js i op => if i == j then some op else none
+                | _ => none)) (hostAt ops.length)
             let a := if model == impl then "" else "MODELDIFF " ++ model
             let b := if spec == impl then "" else "SPECFAIL expected: " ++ spec
             if a == "" && b == "" then "OK" else (a ++ " " ++ b).trimAscii.toString
